@@ -5,7 +5,14 @@ From V Require Import Gen.Params Wire.Varint Wire.VarintProofs AdvEnf.Model AdvE
 Import ListNotations.
 Open Scope Z_scope.
 
-(** Core. For every advertised parameter list and every enforced side: no history in which
+(** Core. (Audit note: the "no error" direction is the invariant "the peer's credit never exceeds the
+    enforced window", which holds by construction of the game -- client and peer count the same [used];
+    the checkable content is [covers], i.e. for the spec-driven client the nine inequalities of
+    [spec_covers] between configCoveringSpec's result and the advertised values. Any difference between
+    the client's accounting and the peer's -- final sizes, which stream a frame lands on, reordered or
+    duplicate NEW_CONNECTION_ID, probing IDs -- is outside the theorems and rests on the correspondence
+    cases and on the units C03/C04/C15/C16.)
+    For every advertised parameter list and every enforced side: no history in which
     the peer stays within the ADVERTISED credit (and the client may grant more credit or
     retire connection IDs whenever it likes) ends in a locally generated FLOW_CONTROL_ERROR,
     STREAM_LIMIT_ERROR, CONNECTION_ID_LIMIT_ERROR, DATAGRAM error or early idle timeout
@@ -212,7 +219,13 @@ Example C12_cid_rotation_at_limit_ok :
 Proof. exact cid_rotation_fine. Qed.
 Print Assumptions C12_cid_rotation_at_limit_ok.
 
-(** Round 3. After any history of grants, what the client enforces is what it last advertised:
+(** Round 3. (Audit note: the next three statements follow from the definition of [EvGrant] -- both the
+    enforced window and the peer's credit become max(old, w) -- together with the hypothesis of [run_st]
+    that grants are increasing. Their link to the code is per step: the three composition theorems
+    below show that one GetWindowUpdate / one queued MAX_STREAMS of C04's / C15's models IS such an
+    increasing grant; there is no whole-run refinement between those models and this game: [used] vs
+    highestReceived and the error conditions are tied by the correspondence cases only.)
+    After any history of grants, what the client enforces is what it last advertised:
     for every counter of the game, in every history whose events are within the peer's credit
     and whose grants raise the enforced window ([run_st]), the enforced window and the peer's
     credit both equal the last granted value (or are what they were if no grant touched the
@@ -296,7 +309,11 @@ Theorem C12_limits_never_decrease : forall e h s s', inv s -> run_st e s h = Som
 Proof. exact limits_never_decrease. Qed.
 Print Assumptions C12_limits_never_decrease.
 
-(** Round 4. DATAGRAM frames (RFC 9221). Whatever the encoding -- with a length field (type 0x31)
+(** Round 4. (Audit note: the two statements on receiving unfold [client_step]'s DATAGRAM branch; what
+    ties them to handleDatagramFrame is the fixed table of both encodings at every boundary. The two on
+    sending concern the PEER's limit, which is not a clause of C12; they are here because the seeded
+    change C12-e broke a helper shared by both directions.)
+    DATAGRAM frames (RFC 9221). Whatever the encoding -- with a length field (type 0x31)
     or without (0x30, last frame of the packet) -- the client accepts a frame iff DATAGRAM support
     is on and the TOTAL frame size (type byte, length field if present, payload) is within the
     enforced limit; the error is FRAME_ENCODING_ERROR when support is off, PROTOCOL_VIOLATION
@@ -340,3 +357,19 @@ Example C12_simulated_histories_fine :
             Forall (fun h => play a (enforced_spec a default_config) h = Fine) (sim_shaped a)) advenf_all_specs.
 Proof. exact sim_shaped_fine. Qed.
 Print Assumptions C12_simulated_histories_fine.
+
+(** Round 5 (audit). A limit of the statements above, stated so that it cannot be overlooked: the
+    conformant peer of the game may send DATAGRAM frames only up to [dgram_cap] = min(advertised frame
+    size, min(advertised max_udp_payload_size, receive buffer 1452) - 18). For the Chrome parrots that
+    is 1434 although 65536 / 1472 are advertised: a larger frame needs a packet the client's receive
+    buffer truncates and drops (no error is raised -- the theorems are about errors --, but the
+    datagram is not delivered: "use to the full" does not hold for frames of 1435..1454 bytes; a peer
+    that validates its path MTU by probing never gets there, since probes above 1452 bytes are never
+    acknowledged). *)
+Example C12_dgram_cap_narrowing :
+  let a := advertised advenf_spec_Chrome_146_IPv4 in
+  (l_dgram a, l_udp a, dgram_cap a) = (65536, 1472, 1434) /\
+  play a (enforced_spec a default_config) [EvDgram 1434] = Fine /\
+  play a (enforced_spec a default_config) [EvDgram 1435] = NonConformant.
+Proof. exact dgram_cap_narrowing. Qed.
+Print Assumptions C12_dgram_cap_narrowing.
